@@ -186,13 +186,20 @@ func suiteC14(rng *rand.Rand, tier string, w *Writer) {
 			copy(app.Key[:], ak)
 			orig := p
 			orig.MACPayload.FRMPayload = nil
+			// the bytes the caller handed in, and a second frame value that shares them (the decrypter applies the cipher to a
+			// copy of one decoded frame per candidate device): the cipher returns its result and leaves those bytes alone
+			held := p.MACPayload.FRMPayload
+			q := p
 			p.Decrypt(nwk, app)
 			once := append([]byte{}, p.MACPayload.FRMPayload...)
+			pure := bytes.Equal(held, pl)
+			q.Decrypt(nwk, app)
+			pure = pure && bytes.Equal(q.MACPayload.FRMPayload, once) && bytes.Equal(held, pl)
 			p.Decrypt(nwk, app)
 			twice := append([]byte{}, p.MACPayload.FRMPayload...)
 			after := p
 			after.MACPayload.FRMPayload = nil
-			same := reflect.DeepEqual(orig, after) && bytes.Equal(pl, p.MACPayload.FRMPayload[:len(pl)])
+			same := reflect.DeepEqual(orig, after) && bytes.Equal(pl, p.MACPayload.FRMPayload[:len(pl)]) && pure
 			w.Case("cipher", []string{kv("nwk", nk), kv("app", ak), kv("mtype", int(mt)), fmt.Sprintf("addr=%x", addr),
 				kv("fcnt", fcnt), kv("port", port), kv("frm", pl)}, hx(once)+" "+hx(twice)+" "+kv("", same)[1:])
 			w.Count(fmt.Sprintf("cipher.blocks=%d", (n+15)/16))
